@@ -1223,6 +1223,32 @@ func bt5SizeBookkeeping(p *core.Prog, rep *core.Report) {
 			}
 			rep.Check(ok, "BT5", fmt.Sprintf("staging-charges-size:%s#%d", core.FuncKey(fn), i+1), "a staged record is added to the staged size", p.InstrPos(s), fmt.Sprintf("the record staged at %s reaches the return at %s without Batch.%s being increased: the batch under-estimates what it holds and overflows the data file instead of flushing", p.InstrPos(s), esc, sz.Name()), true)
 		}
+		// (e) a charge is not swallowed by the flush's reset: no path leads from an increase of the staged size to the
+		// mid-batch flush without staging a record in between (the flush zeroes the size; the record charged before it and
+		// staged after it is then held uncounted - seed C17-L: one record too many per flush window)
+		isSite := func(in ssa.Instruction) bool {
+			for _, s := range sites {
+				if s == in {
+					return true
+				}
+			}
+			return false
+		}
+		isFlushCall := func(in ssa.Instruction) bool {
+			c, ok := in.(*ssa.Call)
+			return ok && flushFns[c.Common().StaticCallee()]
+		}
+		if len(sites) > 0 {
+			for _, b := range fn.Blocks {
+				for _, in := range b.Instrs {
+					if !isSizeAdd(in) {
+						continue
+					}
+					hit := firstReachedAvoiding(in, isFlushCall, isSite)
+					rep.Check(hit == nil, "BT5", fmt.Sprintf("charge-survives-flush:%s@%s", core.FuncKey(fn), blockOrdinal(in)), "no flush resets the staged size between charging a record and staging it", p.InstrPos(in), fmt.Sprintf("Batch.%s is increased at %s and the mid-batch flush at %s (which zeroes it) can follow before the record is staged: the record staged afterwards is held uncounted and the next file overflows its limit", sz.Name(), p.InstrPos(in), posOrEmpty(p, hit)), true)
+				}
+			}
+		}
 		// (d) the overflow tests: every comparison against the limit has an edge that leads to the flush
 		if len(sites) > 0 {
 			nCmp := 0
@@ -1231,11 +1257,7 @@ func bt5SizeBookkeeping(p *core.Prog, rep *core.Report) {
 				if !ok {
 					continue
 				}
-				bo, ok := iff.Cond.(*ssa.BinOp)
-				if !ok {
-					continue
-				}
-				if core.LastField(core.Unwrap(bo.X)) != limit && core.LastField(core.Unwrap(bo.Y)) != limit {
+				if !isLimitTest(iff.Cond, limit, 0) {
 					continue
 				}
 				nCmp++
@@ -1258,11 +1280,7 @@ func bt5SizeBookkeeping(p *core.Prog, rep *core.Report) {
 					if !ok {
 						continue
 					}
-					bo, ok := iff.Cond.(*ssa.BinOp)
-					if !ok {
-						continue
-					}
-					if core.LastField(core.Unwrap(bo.X)) != limit && core.LastField(core.Unwrap(bo.Y)) != limit {
+					if !isLimitTest(iff.Cond, limit, 0) {
 						continue
 					}
 					if b == st.Block() || b.Dominates(st.Block()) {
@@ -2485,4 +2503,99 @@ func it2FilterPolarity(p *core.Prog, rep *core.Report) {
 		}
 	}
 	rep.Check(len(bad) == 0, "IT2", "filter-polarity:"+core.FuncKey(filter), "the filter stops on matching keys only, and on all of them", p.Pos(filter.Pos()), strings.Join(sortedStr(bad), "; "), true)
+}
+
+// firstReachedAvoiding: the first instruction satisfying isTarget that is reachable from `from` (exclusive) along a CFG path
+// on which no instruction satisfies isBarrier before it; nil if there is none.
+func firstReachedAvoiding(from ssa.Instruction, isTarget, isBarrier func(ssa.Instruction) bool) ssa.Instruction {
+	scan := func(b *ssa.BasicBlock, start int) (ssa.Instruction, bool) {
+		for j := start; j < len(b.Instrs); j++ {
+			if isTarget(b.Instrs[j]) {
+				return b.Instrs[j], true
+			}
+			if isBarrier(b.Instrs[j]) {
+				return nil, true
+			}
+		}
+		return nil, false
+	}
+	b := from.Block()
+	if t, stop := scan(b, indexIn(from)+1); stop {
+		return t
+	}
+	seen := map[*ssa.BasicBlock]bool{}
+	work := append([]*ssa.BasicBlock{}, b.Succs...)
+	for len(work) > 0 {
+		x := work[len(work)-1]
+		work = work[:len(work)-1]
+		if seen[x] {
+			continue
+		}
+		seen[x] = true
+		t, stop := scan(x, 0)
+		if t != nil {
+			return t
+		}
+		if !stop {
+			work = append(work, x.Succs...)
+		}
+	}
+	return nil
+}
+
+func posOrEmpty(p *core.Prog, in ssa.Instruction) string {
+	if in == nil {
+		return ""
+	}
+	return p.InstrPos(in)
+}
+
+// blockOrdinal: a construct key for an instruction that survives line shifts: its ordinal among the stores of its function.
+func blockOrdinal(in ssa.Instruction) string {
+	n := 0
+	for _, b := range in.Parent().Blocks {
+		for _, x := range b.Instrs {
+			if _, ok := x.(*ssa.Store); ok {
+				n++
+			}
+			if x == in {
+				return fmt.Sprintf("store%d", n)
+			}
+		}
+	}
+	return "store?"
+}
+
+// isLimitTest: cond compares something with the size-limit field - directly, negated, or inside an unexported predicate
+// helper of the package that the condition calls (`if b.exceedsFileCapacity(size)`; two levels).
+func isLimitTest(cond ssa.Value, limit *types.Var, d int) bool {
+	switch t := cond.(type) {
+	case *ssa.BinOp:
+		return core.LastField(core.Unwrap(t.X)) == limit || core.LastField(core.Unwrap(t.Y)) == limit
+	case *ssa.UnOp:
+		if t.Op == token.NOT {
+			return isLimitTest(t.X, limit, d)
+		}
+	case *ssa.Call:
+		f := t.Common().StaticCallee()
+		if f == nil || d > 1 || token.IsExported(f.Name()) || !inRootPkg(f) {
+			return false
+		}
+		if b, ok := f.Signature.Results().At(0).Type().Underlying().(*types.Basic); !ok || f.Signature.Results().Len() != 1 || b.Kind() != types.Bool {
+			return false
+		}
+		for _, blk := range f.Blocks {
+			for _, in := range blk.Instrs {
+				if bo, ok := in.(*ssa.BinOp); ok {
+					switch bo.Op {
+					case token.GTR, token.GEQ, token.LSS, token.LEQ:
+						if isLimitTest(bo, limit, d+1) {
+							return true
+						}
+					}
+				}
+			}
+		}
+	}
+	return false
 }
